@@ -215,6 +215,20 @@ func runC20(c *Ctx) {
 		ed := callsIn(f, "(*"+u.optsT+").EnsureDefaults", "(*"+u.optsT+").EnsureDefaultsOauth2")
 		okData := false
 		dv := eargs[1]
+		// (when the rendering moved into a helper, the data is the helper's parameter: take this constructor's argument)
+		for _, site := range callSitesUnder(f, "(*html/template.Template).Execute", "(*text/template.Template).Execute") {
+			site.at(func() {
+				for i := 0; i < 4; i++ {
+					if prm, isP := dv.(*ssa.Parameter); isP {
+						if b, bound := paramEnv[prm]; bound {
+							dv = b
+							continue
+						}
+					}
+					break
+				}
+			})
+		}
 		if mi, ok := dv.(*ssa.MakeInterface); ok {
 			dv = mi.X
 		}
@@ -224,7 +238,7 @@ func runC20(c *Ctx) {
 				okData = recv == ssa.Value(al) && dominates(ed[0], ld)
 			}
 		}
-		c.obI("R20.1", ex, "ui-executes-with-options", okData && len(ed) == 1 && dominates(ed[0], ex), "the template is executed with the options after their defaults were ensured", "")
+		c.obI("R20.1", ex, "ui-executes-with-options", okData && len(ed) == 1 && !pathExistsUnder(f, nil, ex, nil, isOneOf(ed[0])), "the template is executed with the options after their defaults were ensured", "")
 	}
 
 	// R20.2 html/template only
